@@ -28,14 +28,16 @@ DEADLINE = {"quick": 1500, "thorough": 4 * 3600}
 ENTRY = ["text", "xml", "pages"]
 
 TIERS = {
-    "quick": {"seeds": list(S.SEEDS), "entries": ["text", "xml"], "payload_seeds": ["xref", "crypt", "pages"], "payload_replace": [], "trunc_seeds": ["xref", "crypt"]},
+    "quick": {"seeds": list(S.SEEDS), "entries": ["text", "xml"], "payload_seeds": ["xref", "crypt", "pages", "incr"], "payload_replace": [], "trunc_seeds": ["xref", "incr"]},
     "thorough": {"seeds": list(S.SEEDS), "entries": ENTRY, "payload_seeds": list(S.SEEDS), "payload_replace": [0x00, 0xFF, 0x3C, 0x28], "trunc_seeds": list(S.SEEDS)},
 }
 
 META = {
     "rule": (
-        "seeds: 6 generated documents (page tree+labels; simple fonts; composite fonts; xref/object streams; graphics/images/"
-        "colour spaces/inline image; RC4 encryption). structural faults: every dictionary entry, array element, stream-dictionary "
+        "seeds: 7 generated documents (page tree+labels; simple fonts; composite fonts; xref/object streams; graphics/images/"
+        "colour spaces/inline image/nested forms; RC4 encryption; incremental update with /Prev). The generated object stream and "
+        "cross-reference stream (dictionary entries and payload) and every stream's /Length are fault sites too; /Prev additionally "
+        "gets the value 'offset of its own section'. structural faults: every dictionary entry, array element, stream-dictionary "
         "entry, top-level object and trailer entry x {null,int,real,name,string,array,dict,boolean,ref->self,ref->missing,"
         "ref->ancestor(cycle)} (kinds of the value's own type skipped) plus key removal; payload faults: every stream truncated at "
         "every length and emptied (thorough: one byte replaced at every position by 00,FF,'<','('); file truncated at every byte. "
@@ -44,8 +46,8 @@ META = {
         "and the outcome was judged; distinct outcomes = (entry point, outcome class, exception type, raising function)."
     ),
     "bound": {
-        "quick": "structural faults on all 6 seeds x {extract_text, extract_text_to_fp(xml)}; payload truncation on 3 seeds; file truncation at every byte of 2 seeds",
-        "thorough": "structural + payload (truncate, empty, 4 byte values at every position) + every-byte truncation on all 6 seeds x 3 entry points",
+        "quick": "structural faults on all 7 seeds x {extract_text, extract_text_to_fp(xml)}; payload truncation at every length on 4 seeds (xref-stream payload also 00/FF at every position); file truncation at every byte of 2 seeds",
+        "thorough": "structural + payload (truncate, empty, 4 byte values at every position) + every-byte truncation on all 7 seeds x 3 entry points",
     },
     "assumptions": [
         "single faults only; fault values are one representative per PDF type",
@@ -95,6 +97,8 @@ def walk(o: Any, path: Tuple) -> Iterator[Tuple[Tuple, Any, bool]]:
         for k, v in o.d.items():
             yield path + (("sd", k),), v, True
             yield from walk(v, path + (("sd", k),))
+        if "Length" not in o.d and o.length == "auto":
+            yield path + (("len", "Length"),), len(o.data), True
     elif isinstance(o, dict):
         for k, v in o.items():
             yield path + (("k", k),), v, True
@@ -146,9 +150,16 @@ def set_at(doc: Doc, num: int, path: Tuple, value: Any, remove: bool = False) ->
         doc.objs[num] = (g, value)
         return
     o = doc.objs[num][1]
+    _set_in(o, path, value, remove)
+
+
+def _set_in(o: Any, path: Tuple, value: Any, remove: bool) -> None:
     for step, k in path[:-1]:
         o = o.d[k] if step == "sd" else o[k]
     step, k = path[-1]
+    if step == "len":
+        o.length = None if remove else value
+        return
     c = o.d if step == "sd" else o
     if remove:
         del c[k]
@@ -170,11 +181,31 @@ def structural_faults(name: str) -> List[Tuple]:
                         out.append(("struct", num, path, kind))
                 elif kind != t and not (t == "ref" and kind == "refself" and False):
                     out.append(("struct", num, path, kind))
-    for key in ["Root", "Info", "Size", "ID", "Encrypt"]:
-        for kind in KINDS:
-            if kind == "remove" or key in ("Root", "Size") or key in (kw.get("trailer_extra") or {}) or (key == "Info" and kw.get("info")):
+    for key in ["Root", "Info", "Size", "ID", "Encrypt", "Prev"]:
+        if key == "Prev" and "writer" not in kw:
+            continue
+        for kind in KINDS + (["offsetself"] if key == "Prev" else []):
+            if kind == "remove" or key in ("Root", "Size", "Prev") or key in (kw.get("trailer_extra") or {}) or (key == "Info" and kw.get("info")):
                 out.append(("trailer", key, kind))
+    # generated object stream / cross-reference stream dictionaries
+    for which, st in generated_streams(name).items():
+        for path, v, removable in walk(st, ()):
+            t = type_of(v)
+            for kind in KINDS:
+                if kind == "remove":
+                    if removable:
+                        out.append(("gen", which, path, kind))
+                elif kind != t:
+                    out.append(("gen", which, path, kind))
     return out
+
+
+def generated_streams(name: str) -> Dict[str, Stream]:
+    doc, kw = S.SEEDS[name]()
+    got: Dict[str, Stream] = {}
+    if "writer" not in kw and kw.get("xref") == "stream":
+        S.write(doc, kw, mutate=lambda kind, st: got.__setitem__(kind, copy.deepcopy(st)))
+    return got
 
 
 def materialise(name: str, fault: Tuple) -> bytes:
@@ -191,7 +222,7 @@ def materialise(name: str, fault: Tuple) -> bytes:
     elif fault[0] == "trailer":
         _, key, kind = fault
         te = dict(kw.get("trailer_extra") or {})
-        te[key] = DROP if kind == "remove" else kind_value(kind, root, root)
+        te[key] = DROP if kind == "remove" else S.SELF_OFFSET if kind == "offsetself" else kind_value(kind, root, root)
         if key == "Info" and kind == "remove":
             kw["info"] = None
             te.pop("Info")
@@ -203,7 +234,20 @@ def materialise(name: str, fault: Tuple) -> bytes:
             st.data = st.data[:pos]
         else:
             st.data = st.data[:pos] + bytes([val]) + st.data[pos + 1:]
-    data = doc.write(**kw)
+    mutate = None
+    if fault[0] == "gen":
+        _, which, path, kind = fault
+
+        def mutate(k, st, which=which, path=path, kind=kind):
+            if k == which:
+                _set_in(st, path, None if kind == "remove" else kind_value(kind, root, root), kind == "remove")
+    elif fault[0] == "genpayload":
+        _, which, op, pos, val = fault
+
+        def mutate(k, st, which=which, op=op, pos=pos, val=val):
+            if k == which:
+                st.data = st.data[:pos] if op == "trunc" else st.data[:pos] + bytes([val]) + st.data[pos + 1:]
+    data = S.write(doc, kw, mutate=mutate)
     if fault[0] == "filetrunc":
         data = data[: fault[1]]
     return data
@@ -339,6 +383,8 @@ def shards(tier):
         for num in sorted(doc.objs):
             if isinstance(doc.objs[num][1], Stream):
                 out.append(("payload", name, num))
+        for which in generated_streams(name):
+            out.append(("genpayload", name, which))
     for name in t["trunc_seeds"]:
         n = len(S.build(name))
         for i in range(0, n, 150):
@@ -367,6 +413,16 @@ def run_shard(shard, tier, st):
             for val in t["payload_replace"]:
                 if doc.objs[num][1].data[pos] != val:
                     f = ("payload", num, "byte", pos, val)
+                    judge(st, name, f, materialise(name, f), t["entries"], seed_bytes)
+    elif shard[0] == "genpayload":
+        which = shard[2]
+        st0 = generated_streams(name)[which]
+        for pos in range(0, len(st0.data)):
+            f = ("genpayload", which, "trunc", pos, 0)
+            judge(st, name, f, materialise(name, f), t["entries"], seed_bytes)
+            for val in t["payload_replace"] or ([0x00, 0xFF] if which == "xrefstm" else []):
+                if st0.data[pos] != val:
+                    f = ("genpayload", which, "byte", pos, val)
                     judge(st, name, f, materialise(name, f), t["entries"], seed_bytes)
     else:
         for cut in range(shard[2], shard[3]):
